@@ -81,6 +81,8 @@ def exec_builder(cells, ops, builder=None):
                 b.store_slice(s)
             elif k == 'a':
                 b.store_address(mk_addr(p[1:]))
+            elif k == 'ec':
+                b.end_cell()                      # interim end_cell(): result dropped, the builder goes on
             elif k == 'sn':
                 b.store_snake_bytes(bytes.fromhex(p[1].replace('-', '')))
             elif k == 'd':
